@@ -112,20 +112,33 @@ def corr_plan(chk, r, n):
 def search_histories(chk, r, n):
     """real runs: every point's result must be bit-identical to its single-point run"""
     pool = [dict(x=0.1, Q2=10.0), dict(x=0.3, Q2=10.0), dict(x=0.3, Q2=40.0), dict(Q2=0.3, x=0.7), dict(x=0.7, Q2=0.3), dict(x=0.3, Q2=0.7), dict(x=0.55, Q2=40.0), dict(Q2=10.0, x=0.1)]
-    for _ in range(n):
+    forced = [dict(sv=dict(FactScaleVar=False, FNS="FFNS", NfFF=3), alias=False), dict(sv=dict(FactScaleVar=False), alias=True), dict(sv=dict(RenScaleVar=False, FactScaleVar=False), alias=False), dict(sv={}, alias=True)]
+    for i_case in range(n + len(forced)):
         tmc = r.choice([0, 0, 1, 3])
         process = r.choice(["NC", "CC", "EM"])
         pto = r.choice([0, 1]) if tmc == 0 else 0
         kinds = r.sample(["F2", "FL", "F3"], 2)
         fl = r.choice(["total", "light"])
+        force = forced[i_case] if i_case < len(forced) else None
+        if force is not None:
+            tmc, pto, fl = 0, 1, "total"
         names = [f"{k}_{fl}" for k in kinds]
         grid = cards.default_grid(7, 0.05)
-        th = cards.theory(PTO=pto, TMC=tmc, Q0=0.5)
+        # the scale-variation switches are legal card entries: every combination
+        sv_kw = r.choice([{}, {}, dict(FactScaleVar=False), dict(RenScaleVar=False), dict(RenScaleVar=False, FactScaleVar=False), dict(FactScaleVar=False, FNS="FFNS", NfFF=3)])
+        if force is not None:
+            sv_kw = force["sv"]
+        th = cards.theory(PTO=pto, TMC=tmc, Q0=0.5, **sv_kw)
         kw = dict(prDIS=process, ProjectileDIS="neutrino" if process == "CC" else "electron", interpolation_xgrid=grid, interpolation_polynomial_degree=2)
         pts = [copy.deepcopy(p) for p in r.sample(pool, r.choice([2, 3, 5]))]
         if r.random() < 0.4:
             pts.append(copy.deepcopy(pts[0]))  # duplicate
         obs = {nm: [copy.deepcopy(p) for p in pts] for nm in names}
+        if fl == "total" and (r.random() < 0.35 if force is None else force["alias"]):
+            # the short spelling of the same observable, with its own (different) list of points
+            short = names[0].split("_")[0]
+            other = [copy.deepcopy(p) for p in r.sample(pool, 2)]
+            obs = {short: other, **obs} if r.random() < 0.5 else {**obs, short: other}
         with_xs = r.random() < 0.4 and process != "EM"
         if with_xs:
             xsn = ("XSHERACC" if process == "CC" else "XSHERANC") + f"_{fl}"
@@ -147,15 +160,21 @@ def search_histories(chk, r, n):
             chk.extra["search_exceptions"][k] = chk.extra["search_exceptions"].get(k, 0) + 1
             continue
         problems = []
-        got = big[target_name][i]
-        if not (realrun.identical(got, single) and got.x == single.x and got.Q2 == single.Q2):
-            problems.append("point in the big run differs from its single-point run")
-        j = next(jj for jj, p in enumerate(perm[target_name]) if p["x"] == pts[i]["x"] and p["Q2"] == pts[i]["Q2"])
-        if not realrun.identical(big2[target_name][j], single):
-            problems.append("point in the permuted run differs from its single-point run")
-        if again is not None and not realrun.identical(again[target_name][i], single):
-            problems.append("second get_result differs")
-        sample = dict(TMC=tmc, process=process, pto=pto, observables=list(obs), points=pts, probe=dict(obs=target_name, index=i), with_xs=with_xs, repeated=again is not None, problems=problems)
+        try:
+            got = big[target_name][i]
+            if not (realrun.identical(got, single) and got.x == single.x and got.Q2 == single.Q2):
+                problems.append("point in the big run differs from its single-point run")
+            j = next(jj for jj, p in enumerate(perm[target_name]) if p["x"] == pts[i]["x"] and p["Q2"] == pts[i]["Q2"])
+            if not realrun.identical(big2[target_name][j], single):
+                problems.append("point in the permuted run differs from its single-point run")
+            if again is not None and not realrun.identical(again[target_name][i], single):
+                problems.append("second get_result differs")
+        except (IndexError, KeyError, StopIteration) as e:
+            problems.append(f"the output does not have the shape of the request ({type(e).__name__}: {e})")
+        for nm, lst in obs.items():
+            if len(big[nm]) != len(lst) or any(float(res_.x) != p_["x"] or float(res_.Q2) != p_["Q2"] for res_, p_ in zip(big[nm], lst)):
+                problems.append(f"{nm}: the output does not hold the points requested under that name")
+        sample = dict(TMC=tmc, process=process, pto=pto, sv=sv_kw, observables=list(obs), points=pts, probe=dict(obs=target_name, index=i), with_xs=with_xs, repeated=again is not None, problems=problems)
         chk.search_case("permuted_extended_vs_single", not problems, what="; ".join(problems) or "history", data=sample, sample=sample, nontrivial=any(np.any(v[0] != 0) for v in single.orders.values()))
 
 
